@@ -248,7 +248,17 @@ def run_cases(prop, cases, attribute=None, progress=True):
             # shared-priority scheduler still migrates tasks, so its workers' shadow stacks overflow after enough
             # migrations and libtsan itself dies (DEADLYSIGNAL inside __tsan::CurrentStackId).  That is a tool limit, not a
             # property violation: TSan legs therefore never use shared-priority (it stays covered on the plain flavour).
-            c.args = ["--scheduler=local-priority-fifo" if a == "--scheduler=shared-priority" else ("--policy=1" if a == "--policy=7" else a) for a in c.args]
+            def no_sp(a):
+                if a == "--scheduler=shared-priority":
+                    return "--scheduler=local-priority-fifo"
+                if a == "--policy=7":
+                    return "--policy=1"
+                if a.startswith("--layout="):  # "policy:size,..." of the extra pools (C10)
+                    return "--layout=" + ",".join(("1:" + e.split(":", 1)[1]) if e.startswith("7:") else e for e in a[9:].split(","))
+                return a
+            c.args = [no_sp(a) for a in c.args]
+            if "--no-shared-priority=1" not in c.args:
+                c.args.append("--no-shared-priority=1")  # harnesses that pick policies themselves (C05) honour this
         if not os.path.isabs(c.exe):
             need.setdefault(c.flavour, set()).add(c.exe)
     hdirs = {}
